@@ -266,6 +266,34 @@ fn main() {
     ()
 }
 "#, "6\n15\n5\n8\n"),
+    // a trait implemented for a trait-object type, reached directly and through a bound instantiated at `dyn Shape`
+    ("trait-for-dyn-type", r#"trait Shape { fn describe(Self) -> string; }
+trait Report { fn describe(Self) -> string; fn tag(Self) -> int32; }
+struct Point { x: int32, y: int32 }
+impl Shape for Point { fn describe(self: Point) -> string { "Point(" + int32_to_string(self.x) + ")" } }
+impl Shape for int32 { fn describe(self: int32) -> string { "int" } }
+impl Report for dyn Shape {
+    fn describe(self: dyn Shape) -> string { "report<" + Shape::describe(self) + ">" }
+    fn tag(self: dyn Shape) -> int32 { 7 }
+}
+impl Report for int32 {
+    fn describe(self: int32) -> string { "plain-int" }
+    fn tag(self: int32) -> int32 { 1 }
+}
+fn via_bound[T: Report](x: T) -> string { x.describe() }
+fn via_ufcs[T: Report](x: T) -> string { Report::describe(x) + int32_to_string(Report::tag(x)) }
+fn main() {
+    let s: dyn Shape = Point { x: 1, y: 2 };
+    let i: dyn Shape = 5;
+    let _ = string_println(Report::describe(s));
+    let _ = string_println(via_bound(s));
+    let _ = string_println(via_ufcs(s));
+    let _ = string_println(via_bound(i));
+    let _ = string_println(via_bound(5));
+    let _ = string_println(via_ufcs(6));
+    ()
+}
+"#, "report<Point(1)>\nreport<Point(1)>\nreport<Point(1)>7\nreport<int>\nplain-int\nplain-int1\n"),
 ];
 
 // ------------------------------------------------ extern "go" bindings (C02)
